@@ -165,6 +165,23 @@ def check(ctx):
         a0 = strip(n2["c"][1])
         ctx.ob("C20.H7", site_of(F2, n2), "children are reaped by pid only (never 'any child'), so one handle cannot steal another's status",
                const_of(prog, a0) is None, {"pid_argument": expr_str(a0)})
+    # H8: nothing ties a child to the thread that started it.  prctl(PR_SET_PDEATHSIG) is per thread on Linux: the signal is sent
+    # when the *thread* that forked exits, not the process - a child started by a short-lived worker thread would be killed under
+    # the threads that still use its handle.  (Deny-list of thread-affine calls; an unknown prctl option gives no verdict.)
+    nlib = 0
+    for F2 in prog.funcs_all:
+        if not F2.file.startswith(prog.root) or "/test/" in F2.file or "/examples/" in F2.file:
+            continue
+        nlib += 1
+        for n2 in F2.calls("prctl"):
+            opt = const_of(prog, n2["c"][1]) if len(n2["c"]) > 1 else None
+            if opt is None:
+                ctx.floor_failures.append("C20.H8: %s: prctl with an option this check cannot evaluate, no verdict" % site_of(F2, n2))
+            else:
+                ctx.ob("C20.H8", site_of(F2, n2), "the library asks for no per-thread parent-death signal (PR_SET_PDEATHSIG = 1)", opt != 1,
+                       {"option": opt}, nontrivial=True)
+    ctx.ob("C20.H8", "library: thread-affine process controls", "no call ties a child's life to the starting thread", True,
+           {"functions_scanned": nlib})
     from .. import startpath as SP
     SP.reap_target_rule(ctx, prog, "C20.H7p")      # ... and on every path of the start code the pid is the one fork() just returned
     res, F, I = c12.check_m1(ctx, "posix-mt")
